@@ -47,7 +47,7 @@ def cases(tier, seed):
     funcs = ("sum", "count", "max", "first", "last", "mean", "size", "min") if tier == "quick" else R.FUNCS
     # (a) thread counts vs one thread, (b) value chunk layouts vs contiguous, (d) every completion order
     for f in funcs:
-        for dt in (("float64", "int64") if tier == "quick" else ("float64", "int64", "bool", "datetime64[ns]")):
+        for dt in (("float64", "int64") + (("bool",) if f in ("first", "last", "min", "max") else ()) if tier == "quick" else ("float64", "int64", "bool", "datetime64[ns]")):
             if dt.startswith("datetime") and f in ("sum", "mean", "sum_squares") or dt == "bool" and f in ("mean", "sum_squares"):
                 continue
             base = {"kind": "strategy", "func": f, "dtype": dt, "N": N, "G": G}
@@ -99,6 +99,17 @@ def cases(tier, seed):
         c = {"kind": "chunked_keys", "func": "count_ikey", "lengths": lengths, "N": N, "G": G, "mask": {"kind": "bool_sym"}, "ncols": 0, "dtype": "float64"}
         c["name"] = f"chunked keys vs contiguous:GroupBy.count_ikey/chunks={'+'.join(map(str, lengths))},G={G}/mask=bool_sym"
         out.append(c)
+    for f in ("sum", "first", "max", "count", "mean"):
+        for mt in (2, 3, 4):
+            for ncols in (1, 2):
+                Nt = N if tier == "quick" else 5
+                bitsets = [[True, False] * (Nt // 2) + [True] * (Nt % 2), [False] * (Nt - 1) + [True], [True] + [False] * (Nt - 1)]
+                for mk in [{"kind": "none"}, {"kind": "fancy", "L": 3}] + [{"kind": "bool", "bits": b} for b in bitsets]:
+                    if tier == "quick" and (mt == 3 or (ncols == 2 and mk["kind"] != "none")):
+                        continue
+                    c = {"kind": "gb_threads", "func": f, "N": Nt, "G": G, "mask": mk, "ncols": ncols, "max_threads": mt, "dtype": "float64"}
+                    c["name"] = f"GroupBy.{f} with up to {mt} threads per call == single thread/contiguous keys/N={Nt},G={G}/mask={R.mask_desc(mk)}/value columns={ncols}"
+                    out.append(c)
     out.append({"kind": "tmax", "name": "largest thread count the public API can choose (probed from the real expressions)"})
     return out
 
@@ -108,6 +119,8 @@ def run_case(E, case):
         return run_strategy(E, case)
     if case["kind"] == "chunked_keys":
         return run_chunked(E, case)
+    if case["kind"] == "gb_threads":
+        return run_gb_threads(E, case)
     if case["kind"] == "tmax":
         t0 = time.time()
         tm, seen = t_max(E)
@@ -265,6 +278,86 @@ def run_chunked(E, case):
     return r
 
 
+def run_gb_threads(E, case):
+    t0 = time.time()
+    inp = Inputs()
+    N, G = case["N"], case["G"]
+    codes = inp.codes("k", N, G)
+    cols = [inp.values(f"v{c}_", N, "float64") for c in range(case["ncols"])]
+    d = {}
+    mk = case["mask"]["kind"]
+    if mk == "bool":
+        d["mask"] = list(case["mask"]["bits"])
+    elif mk == "fancy":
+        d["mask"] = inp.ints("p", case["mask"]["L"], -N, N - 1)
+    merged = MergedRT()
+
+    def call(mt):
+        def body():
+            gb = make_gb(E, G, codes=A(codes, "int64").tag("state:_group_ikey"), max_threads=mt)
+            mask = A(d["mask"], "bool" if mk == "bool" else "int64").tag("input:mask") if "mask" in d else None
+            f = "sum" if case["func"] == "mean" else case["func"]
+            return gb._apply_gb_func_across_chunked_group_keys(f, [A(c, "float64").tag("input:values") for c in cols], mask)
+        return run_paths(body)
+    try:
+        p1, p2 = call(case["max_threads"]), call(1)
+    except (Unsupported, OutsideModel):
+        raise
+    except Exception as e:      # noqa: BLE001
+        return common.raises_result(E, inp, PROP, f"gb_threads:{case['func']}", case, e, t0)
+    bads = []
+    for pc1, o1, rt1 in p1:
+        for pc2, o2, rt2 in p2:
+            pcz = b_and(*(pc1 + pc2)) if (pc1 or pc2) else True
+            for col, ((ra, ca), (rb, cb)) in enumerate(zip(o1, o2)):
+                for g in range(G):
+                    if case["func"] != "count":
+                        bads.append((f"result[col {col}, g={g}]", b_and(pcz, b_not(same(ra.cells[g], rb.cells[g])))))
+                    if case["func"] != "last":
+                        bads.append((f"count[col {col}, g={g}]", b_and(pcz, b_not(same(ca.cells[g], cb.cells[g])))))
+    for paths in (p1, p2):
+        for pc, _, rt in paths:
+            for kind, g_, c_, where in rt.obligations:
+                merged.obligations.append((kind, b_and(*pc, g_) if pc else g_, c_, where))
+            merged.pre.extend(rt.pre)
+    dec = decide(inp, bads, merged)
+    r = {"verdict": dec.verdict, "solver_s": dec.solver_s, "symex_s": time.time() - t0 - dec.solver_s, "n_queries": dec.n_queries,
+         "obligations": dec.obligations, "failed_obligations": dec.failed_obligations, "witnesses": {}, "candidates": [], "encoded": sorted(E.encoded)}
+    if dec.verdict == "sat" or dec.failed_obligations:
+        r["verdict"] = "sat"
+        model = dec.model if dec.verdict == "sat" else dec.ob_model
+        r["candidates"].append({"signature": f"{PROP}:gb_threads:{case['func']}:mask={mk}", "case": case, "inputs": jsonable(model), "kind": "property",
+                                "labels": dec.which[:4] + [f"{a}@{b}" for a, b in dec.failed_obligations[:3]]})
+    return r
+
+
+def replay_gb_threads(case, conc):
+    conc = common.fix_nans(conc)
+    N, G = case["N"], case["G"]
+    mk = case["mask"]["kind"]
+    mask = real_np.array(case["mask"]["bits"], dtype=bool) if mk == "bool" else (real_np.array(conc["p"], dtype="int64") if mk == "fancy" else None)
+    vals = [np_values(to_float_cells(conc[f"v{c}_"]), "float64") for c in range(case["ncols"])]
+    f = "sum" if case["func"] == "mean" else case["func"]
+    try:
+        from groupby_lib.groupby.core import GroupBy
+
+        def run(mt):
+            gb = real_gb(G, codes=conc["k"])
+            gb.__class__ = type("GroupBy_t", (GroupBy,), {"_max_threads_for_numba": property(lambda self: mt)})
+            return gb._apply_gb_func_across_chunked_group_keys(f, vals, mask)
+        a, b = run(case["max_threads"]), run(1)
+    except Exception as e:      # noqa: BLE001
+        return True, f"real call raised {type(e).__name__}: {e}"
+    bad = []
+    for col, ((ra, ca), (rb, cb)) in enumerate(zip(a, b)):
+        for g in range(G):
+            if case["func"] != "count" and not approx_same(np_to_cells(ra)[g], np_to_cells(rb)[g]):
+                bad.append(("result", col, g))
+            if case["func"] != "last" and int(ca[g]) != int(cb[g]):
+                bad.append(("count", col, g))
+    return bool(bad), {"threads": jsonable([np_to_cells(x[0]) for x in a]), "single": jsonable([np_to_cells(x[0]) for x in b]), "differ": jsonable(bad)}
+
+
 def real_gb(G, chunks=None, pointers=None, codes=None):
     """the same directly constructed state on the REAL class (numba-compiled kernels)"""
     import pandas as pd
@@ -323,11 +416,14 @@ def replay(case, inputs, cand=None):
         return replay_strategy(case, inputs)
     if case["kind"] == "chunked_keys":
         return replay_chunked(case, inputs)
+    if case["kind"] == "gb_threads":
+        return replay_gb_threads(case, inputs)
     raise Unsupported(case["kind"])
 
 
 def validate(E, seed, tier):
-    cs = [c for c in cases("quick", seed) if c["kind"] == "strategy" and c.get("order") is None]
+    # chunked bool values cannot be replayed: pyarrow's bit-packed booleans do not convert zero-copy (container layer, outside the claim)
+    cs = [c for c in cases("quick", seed) if c["kind"] == "strategy" and c.get("order") is None and (not c.get("chunks") or c["dtype"] in ("float64", "int64"))]
     return R.validate_cases(E, cs, seed, 40 if tier == "quick" else 150)
 
 
